@@ -9,18 +9,52 @@ static inline void iora_jarr_push_back(iora_jarr *a, Json v)
   IORA_ASSERT(a->n < GJ_items_max, "array item limit checked before insertion");
   a->n++;
 }
-typedef struct { size_t n; } iora_jobj;  /* Json::Object (map): obj[key] = v inserts a new member or overwrites a duplicate key */
-#define iora_jobj_DEFAULT ((iora_jobj){0})
+/* Json::Object (std::unordered_map<std::string, Json>) as a WITNESS-KEY map: member count + presence/value of ONE arbitrary ghost key.
+ * - Which parsed member names equal the witness key is decided by bit 0 of the opaque payload the _parseString stub leaves in the
+ *   key value: every sequence of flags is realised by some input text, so what is proved for all flag sequences holds for every key.
+ * - The identity of a member value is the cursor position right after it was parsed (strictly increasing from member to member).
+ * - model part  (has, val_id): what the library operation does -- operator[] + assignment inserts or OVERWRITES, emplace inserts only
+ *   if ABSENT;   spec part (spec_has, spec_last): the reference decoder (Python json, RFC 8259 4 "last wins" practice): the value of
+ *   the LAST occurrence.  After every insertion the two must agree (ghost check), and they agree when the object is returned.        */
+typedef struct { size_t n; size_t has; size_t val_id; size_t spec_has; size_t spec_last; } iora_jobj;
+#define iora_jobj_DEFAULT ((iora_jobj){0, 0, 0, 0, 0})
+#define JSON_KEY_IS_WITNESS(k) (((k).i & 1) != 0)
+#define JOBJ_AGREES(o) ((o).has <= 1 && (o).has == (o).spec_has && ((o).has == 0 || (o).val_id == (o).spec_last))
 static inline size_t iora_jobj_size(const iora_jobj *o) { return o->n; }
-static inline void iora_jobj_set(iora_jobj *o, Json key, Json v)
+static inline void iora_jobj_pre(iora_jobj *o, Json key, size_t id)
 {
-  (void)v;
   IORA_ASSERT(key.type == JsonType_String, "getString() on a string value (std::get would throw otherwise)");
   IORA_ASSERT(o->n < GJ_members_max, "object member limit checked before insertion");
-  if (nondet_bool()) o->n++;             /* new key; otherwise a duplicate key overwrites */
+  if (JSON_KEY_IS_WITNESS(key)) { o->spec_has = 1; o->spec_last = id; }        /* reference decoder: last occurrence wins */
+}
+static inline void iora_jobj_post(const iora_jobj *o)
+{
+  IORA_ASSERT(JOBJ_AGREES(*o), "duplicate member names: the object maps the witness key to the value of its LAST occurrence (reference decoder: last wins)");
+}
+/* obj[key] = value */
+static inline void iora_jobj_set(iora_jobj *o, Json key, Json v, size_t id)
+{
+  (void)v;
+  iora_jobj_pre(o, key, id);
+  if (JSON_KEY_IS_WITNESS(key)) { if (o->has == 0) o->n++; o->has = 1; o->val_id = id; }
+  else if (nondet_bool()) o->n++;          /* some other key: new, or a duplicate that is overwritten */
+  iora_jobj_post(o);
+}
+/* obj.emplace(key, value): no effect when the key is present */
+static inline void iora_jobj_emplace(iora_jobj *o, Json key, Json v, size_t id)
+{
+  (void)v;
+  iora_jobj_pre(o, key, id);
+  if (JSON_KEY_IS_WITNESS(key)) { if (o->has == 0) { o->n++; o->has = 1; o->val_id = id; } }
+  else if (nondet_bool()) o->n++;
+  iora_jobj_post(o);
+}
+static inline Json Json_object(iora_jobj o)
+{
+  IORA_ASSERT(JOBJ_AGREES(o), "the object returned maps the witness key to the value of its LAST occurrence (reference decoder: last wins)");
+  return (Json){ .type = JsonType_Object, .b = o.has != 0, .i = (int64_t)o.val_id, .d = 0.0, .s = {0, 0} };
 }
 #define Json_array(a) ((Json){ .type = JsonType_Array, .b = false, .i = 0, .d = 0.0, .s = {0, 0} })
-#define Json_object(o) ((Json){ .type = JsonType_Object, .b = false, .i = 0, .d = 0.0, .s = {0, 0} })
 /* recursion measure depthMax + 1 - depth: strictly decreasing at every recursive call (no function-level decreases clause in CBMC) */
 #define IORA_REC_MEASURE(callee_depth, caller_depth) IORA_ASSERT((callee_depth) > (caller_depth) && (callee_depth) <= self->_limits.depthMax + 1, \
   "recursion measure depthMax + 1 - depth decreases and stays non-negative at the recursive call")
@@ -40,7 +74,8 @@ bool JsonParser_parseString(JsonParser *self, Json *out);
   __CPROVER_loop_invariant(arr.n <= GJ_items_max) \
   __CPROVER_decreases(self->_text.n - self->_pos))
 #define IORA_LOOP_JsonParser_parseObject_1 IORA_LC( \
-  __CPROVER_assigns(self->_pos, self->_error, obj.n) \
+  __CPROVER_assigns(self->_pos, self->_error, obj) \
   __CPROVER_loop_invariant(__CPROVER_loop_entry(self->_pos) <= self->_pos && self->_pos <= self->_text.n) \
   __CPROVER_loop_invariant(obj.n <= GJ_members_max) \
+  __CPROVER_loop_invariant(JOBJ_AGREES(obj)) \
   __CPROVER_decreases(self->_text.n - self->_pos))
